@@ -345,3 +345,53 @@ Proof.
       destruct (stop_timer_frame s1 (rretry (getr s r0))) as (_ & _ & T & _). rewrite C, T. lia.
     + exists (length (insts s1)), z. split; [reflexivity | auto].
 Qed.
+
+(* ------------------------------------------------------------------ *)
+(* the bookkeeping section, for the record whose current instance it belongs to *)
+Lemma bookkeep_retry s j x o :
+  nth_error (insts s) j = Some x -> ipcv x = IBook o -> rctx (getr s (irec x)) = Some j -> irec x < length (recs s) ->
+  let s1 := bookkeep s j in let r := irec x in let y := getr s (irec x) in
+  (forall q, q <> r -> getr s1 q = getr s q) /\
+  (forall t z, nth_error (timers s) t = Some z -> rretry y <> Some t -> nth_error (timers s1) t = Some z) /\
+  match script s with
+  | None => rretry (getr s1 r) = rretry y /\ rbo (getr s1 r) = rbo y /\ timers s1 = timers s
+  | Some l =>
+    if is_nil o then rretry (getr s1 r) = None /\ rbo (getr s1 r) = 0
+    else if in_map s r then
+      match nth_error l (rbo y) with
+      | Some d => rbo (getr s1 r) = S (rbo y) /\ rretry (getr s1 r) = Some (length (timers s)) /\
+                  nth_error (timers s1) (length (timers s)) = Some {| tkind := false; trec := r; tkey := rkey y; tdead := (clock s + d)%N; tst := TArmed |}
+      | None => rbo (getr s1 r) = S (rbo y) /\ rretry (getr s1 r) = None
+      end
+    else rbo (getr s1 r) = rbo y /\ rretry (getr s1 r) = None
+  end.
+Proof.
+  intros Hx Hp Hc Hl. cbn zeta. unfold bookkeep. rewrite Hx, Hp. set (r := irec x) in *. set (y := getr s r) in *. rewrite Hc, Nat.eqb_refl.
+  set (s0 := seti s j (with_pc x IDone)).
+  assert (G : forall S a b, recs S = recs s ->
+     let S' := set_cblog (setr S r (with_exit y o a b)) (cblog (setr S r (with_exit y o a b)) ++ [(rkey y, rdata y, o)]) in
+     (forall q, q <> r -> getr S' q = getr s q) /\ rretry (getr S' r) = a /\ rbo (getr S' r) = b /\ timers S' = timers S).
+  { intros S a b ER. cbn zeta. unfold getr. cbn [recs timers set_cblog setr set_recs]. rewrite ER. split; [intros q Hq; now rewrite nth_set_nth_other|].
+    rewrite nth_set_nth_same by exact Hl. cbn [rretry rbo with_exit]. auto. }
+  assert (ST : forall t z, nth_error (timers s) t = Some z -> rretry y <> Some t -> nth_error (timers (stop_timer s0 (rretry y))) t = Some z).
+  { intros t z Hz Hne. unfold stop_timer. destruct (rretry y) as [t0|]; [|exact Hz]. change (timers s0) with (timers s).
+    destruct (nth_error (timers s) t0) as [x0|] eqn:E0; [|exact Hz]. destruct (tst x0); try exact Hz. cbn [timers set_timers].
+    apply live_tstate_other; [congruence | exact Hz]. }
+  assert (ES : recs (stop_timer s0 (rretry y)) = recs s) by (destruct (stop_timer_frame s0 (rretry y)) as (_ & T & _); rewrite T; reflexivity).
+  assert (LS : length (timers (stop_timer s0 (rretry y))) = length (timers s)) by (destruct (stop_timer_frame s0 (rretry y)) as (_ & _ & _ & _ & _ & _ & _ & _ & _ & _ & T); rewrite T; reflexivity).
+  assert (IM : in_map (stop_timer s0 (rretry y)) r = in_map s r).
+  { unfold in_map. rewrite kmap_stop_timer. unfold getr. rewrite ES. reflexivity. }
+  change (script s0) with (script s). destruct (script s) as [l|].
+  - destruct (is_nil o).
+    + destruct (G (stop_timer s0 (rretry y)) None 0 ES) as (A & B & C & D). cbn zeta in *. split; [exact A|]. split; [|auto]. intros t z Hz Hne. rewrite D. now apply ST.
+    + rewrite IM. destruct (in_map s r).
+      * change (clock (stop_timer s0 (rretry y))) with (clock (stop_timer s0 (rretry y))). destruct (nth_error l (rbo y)) as [d|].
+        -- match goal with |- context [setr ?S r (with_exit y o ?a ?b)] => destruct (G S a b ES) as (A & B & C & D) end. cbn zeta in *.
+           split; [exact A|]. split; [|split; [exact C|split; [rewrite B, LS; reflexivity|]]].
+           ++ intros t z Hz Hne. rewrite D. cbn [timers set_timers]. rewrite nth_error_app1; [now apply ST | rewrite LS; eapply nth_error_nth_len; eauto].
+           ++ rewrite D. cbn [timers set_timers]. rewrite nth_error_app2, LS, Nat.sub_diag by lia. cbn [nth_error].
+              destruct (stop_timer_frame s0 (rretry y)) as (_ & _ & _ & _ & _ & _ & T & _). rewrite T. reflexivity.
+        -- destruct (G (stop_timer s0 (rretry y)) None (S (rbo y)) ES) as (A & B & C & D). cbn zeta in *. split; [exact A|]. split; [|auto]. intros t z Hz Hne. rewrite D. now apply ST.
+      * destruct (G (stop_timer s0 (rretry y)) None (rbo y) ES) as (A & B & C & D). cbn zeta in *. split; [exact A|]. split; [|auto]. intros t z Hz Hne. rewrite D. now apply ST.
+  - destruct (G s0 (rretry y) (rbo y) eq_refl) as (A & B & C & D). cbn zeta in *. split; [exact A|]. split; [|auto]. intros t z Hz _. rewrite D. exact Hz.
+Qed.
